@@ -25,11 +25,10 @@ RULE = ("Hypothesis draws a non-negative count matrix (n in 1..7 quick / 1..12 t
         "lil, dok, dia, bsr (scipy-estimated / 2x2 / 1x1 blocks)} *_matrix, prior_counts in {None, int scalar, float scalar, dense "
         "matrix} and calculate_eq_probs in {True, False}. Oracle: dense reference arithmetic on (C + prior). A case "
         "is non-trivial when n >= 3 and the count matrix is neither symmetric nor diagonal; distinct = distinct "
-        "canonical JSON of the case. Classes count builder x container x prior. scipy *_array containers are a "
-        "separately counted, observed-only class (outside the quantifier's container list).")
+        "canonical JSON of the case. Classes count builder x container x prior. scipy *_array containers have a clause "
+        "of their own (sparse_arrays: same numbers as dense input, array flavour preserved).")
 ASSUMPTIONS = [
-    "domain = ndarray and the eight scipy.sparse *_matrix classes; scipy.sparse *_array containers are exercised and "
-    "counted (clause sparse_array_observed) but not asserted, because the quantifier lists sparse-matrix container types",
+    "domain = ndarray, the eight scipy.sparse *_matrix classes and their *_array counterparts (clause sparse_arrays)",
     "count dtypes int64, int32, float64 (float32 / small-int dtypes change the arithmetic precision and are not generated)",
     "stationarity of normalize() and everything about mle() is asserted only on strongly connected (C + prior)",
     "when a prior is added to a sparse input any dense numpy result (ndarray, including the np.matrix scipy returns for "
@@ -40,7 +39,9 @@ ASSUMPTIONS = [
 ]
 SHARDS = {"quick": 4, "thorough": 16}
 
-ASSERT_SPARSE_ARRAYS = os.environ.get("VERIF_C04_ASSERT_SPARRAY", "0") == "1"
+# scipy's newer sparse *arrays* (csr_array, ...): "every supported sparse format" - the library supports them since fix
+# 8406bb2 and returns them in the flavour that was passed in, so both sentences are asserted (set to 0 to only observe)
+ASSERT_SPARSE_ARRAYS = os.environ.get("VERIF_C04_ASSERT_SPARRAY", "1") == "1"
 
 BUILDERS = ["normalize", "transpose", "mle"]
 MLE_NMAX = 6
@@ -160,6 +161,22 @@ def call(case, spec=None, eq=None, prior="case"):
     r.C, r.T = R.to_dense(r.C_raw), R.to_dense(r.T_raw)
     r.pi = None if r.pi_raw is None else np.asarray(r.pi_raw, dtype=float).ravel()
     r.A, r.P, r.B = A, P, B
+    if int(np.asarray(A).sum()) % 3 == 0:
+        # the returned model belongs to the caller: building ANOTHER model of the same size (a second replica, the next
+        # bootstrap sample) may not change it (subset of the cases, chosen from the counts themselves)
+        keep = (r.C.copy(), r.T.copy(), None if r.pi is None else r.pi.copy())
+        other = R.to_container(np.asarray(A).T + 1, spec)
+        with warnings.catch_warnings():
+            warnings.simplefilter("ignore")
+            try:
+                fn(other, prior_counts=pv, calculate_eq_probs=case["eq"] if eq is None else eq)
+            except Exception:
+                pass
+        now_pi = None if r.pi_raw is None else np.asarray(r.pi_raw, dtype=float).ravel()
+        require(np.array_equal(R.to_dense(r.C_raw), keep[0]) and np.array_equal(R.to_dense(r.T_raw), keep[1], equal_nan=True)
+                and (now_pi is None or np.array_equal(now_pi, keep[2], equal_nan=True)),
+                "a model returned earlier changed when another matrix of the same size was given to the builder",
+                builder=case["builder"], container=spec if isinstance(spec, str) else spec.get("name"))
     return r
 
 
@@ -381,7 +398,7 @@ def run_input_unchanged(case):
 
 
 def run_sparse_array(case):
-    """Observed only: scipy.sparse *_array containers (not in the quantifier's container list)."""
+    """scipy.sparse *_array containers: same numbers as ndarray input, returned in the array flavour passed in."""
     spec = case["container"]
     try:
         r = call(case)
@@ -400,7 +417,8 @@ def run_sparse_array(case):
         require(same, "T differs between ndarray and %s" % spec["name"])
         require(type(r.T_raw) is type(r.x) or (case["prior"] is not None and isinstance(r.T_raw, np.ndarray)),
                 "container type not preserved", got=type(r.T_raw).__name__)
-    return Info(False, ["sparray:%s:%s:p=%s:returns" % (case["builder"], spec["name"], R.prior_kind(case["prior"])),
+    return Info(ASSERT_SPARSE_ARRAYS and case["prior"] is None,
+                ["sparray:%s:%s:p=%s:returns" % (case["builder"], spec["name"], R.prior_kind(case["prior"])),
                         "sparray_outcome=returns,numbers_%s" % ("same" if same else "DIFFER"),
                         "sparray_T_type=%s" % ("same" if type(r.T_raw) is type(r.x) else type(r.T_raw).__name__)])
 
@@ -571,7 +589,7 @@ CLAUSES += _cl("input_unchanged_aliasing", builder_case(6, aliasing=True, prior_
 CLAUSES += [Clause("normalize_int32_large_totals", int32_large_case(), run_int32_large, quick=200, thorough=3000)]
 CLAUSES += [Clause("stationary_large_sparse", big_sparse_case(), run_big_sparse, quick=24, thorough=200)]
 CLAUSES += [Clause("product", builder_case(4), run_product, quick=0, thorough=0, exhaustive=exhaustive_product)]
-CLAUSES += [Clause("sparse_array_observed", builder_case(5, outside=True), run_sparse_array,
+CLAUSES += [Clause("sparse_arrays", builder_case(5, outside=True), run_sparse_array,
                    quick=160, thorough=1500)]
 
 def match_arpack_ring(case, exc):
